@@ -44,7 +44,7 @@ type c27Elem struct {
 }
 
 type c27Op struct {
-	K       string // A D U RA SV MF SH SP CD PU PS PO O AL UA F CF RF
+	K       string // A IA D U RA SV MF SH SP CD PU PS PO O AL UA F CF RF
 	Name    string
 	HasIdx  bool
 	Idx     int
@@ -132,6 +132,8 @@ func (o *c27Op) Tok() string {
 			idx = "i" + strconv.Itoa(o.Idx)
 		}
 		return "A:" + hx(o.Name) + ":" + idx + ":" + b01(o.App) + ":" + o.rhsTok()
+	case "IA":
+		return "IA:" + hx(o.Name) + ":" + b01(o.App) + ":" + o.rhsTok()
 	case "D":
 		fl := o.Flags
 		if fl == "" {
@@ -224,6 +226,8 @@ func (o *c27Op) Src(root string) string {
 			n += "[" + strconv.Itoa(o.Idx) + "]"
 		}
 		return n + eq + o.rhsSrc()
+	case "IA":
+		return o.Name + eq + o.rhsSrc() + " true"
 	case "D":
 		cmd := map[string]string{"d": "declare", "l": "local", "x": "export", "r": "readonly"}[o.Variant]
 		for _, f := range o.Flags {
@@ -362,6 +366,9 @@ func c27ParseTok(tok string) (o c27Op, ok bool) {
 		}
 		o.App = f[3] == "1"
 		return o, c27ParseRhs(f[4], &o)
+	case o.K == "IA" && len(f) == 4:
+		o.Name, o.App = unhx(f[1]), f[2] == "1"
+		return o, c27ParseRhs(f[3], &o) && o.RhsKind < 2
 	case o.K == "D" && len(f) == 8:
 		o.Variant, o.Flags, o.Vt, o.Name, o.Naked, o.App = f[1], strings.Trim(f[2], "_"), f[3], unhx(f[4]), f[5] == "1", f[6] == "1"
 		return o, c27ParseRhs(f[7], &o)
@@ -714,11 +721,11 @@ func (e *c27Env) line(op string, cs *c27Case, childToks []string) string {
 }
 
 // c27LeakRegion reports whether op, run in the child now, is in the region of the known finding
-// C27-append-inherited-array: `name+=word` (plain, subscripted, or through the declare family)
+// C27-append-inherited-array: `name+=word` (plain, subscripted, inline before a command, or through the declare family)
 // while name resolves to an indexed array whose element storage is shared with the parent.
 // It is decided on the real state (hook dump: d[0] parent, d[1] child), so the exclusion is exact.
 func c27LeakRegion(d []interp.VerifC27Runner, o *c27Op) bool {
-	if (o.K != "A" && o.K != "D") || !o.App || o.RhsKind != 1 {
+	if (o.K != "A" && o.K != "D" && o.K != "IA") || !o.App || o.RhsKind != 1 {
 		return false
 	}
 	pl, pi := map[int]bool{}, map[int]bool{}
@@ -775,7 +782,8 @@ func (e *c27Env) runCase(cs *c27Case, emit bool, next func(d []interp.VerifC27Ru
 				note = "parse: " + err.Error()
 				return
 			}
-			ctx, cancel := context.WithTimeout(context.Background(), 3*time.Second)
+			// generous: the operations cannot block, and a cancelled one would look like a tie break
+			ctx, cancel := context.WithTimeout(context.Background(), 120*time.Second)
 			pn := safely(func() {
 				for _, stmt := range f.Stmts {
 					child.Run(ctx, stmt)
@@ -811,7 +819,7 @@ func (e *c27Env) runCase(cs *c27Case, emit bool, next func(d []interp.VerifC27Ru
 	if err != nil {
 		return "", false, "parse setup: " + err.Error()
 	}
-	ctx, cancel := context.WithTimeout(context.Background(), 5*time.Second)
+	ctx, cancel := context.WithTimeout(context.Background(), 300*time.Second)
 	defer cancel()
 	pn := safely(func() { parent.Run(ctx, f) })
 	witness = e.line("spec", cs, c27StepsToks(cs.Child))
@@ -937,6 +945,9 @@ func (g *c27Gen) op(kinds c27Kinds, inFunc bool) c27Op {
 				o.RhsKind = 0
 				o.App = false
 			}
+			if r.Chance(25) { // inline before a command: exported for it, restored afterwards
+				o.K = "IA"
+			}
 		case k < 34: // element assignment / append
 			o = c27Op{K: "A", Name: name, HasIdx: true, Idx: g.idx(), App: r.Chance(15), RhsKind: 1, S: g.val()}
 		case k < 39: // associative
@@ -1026,6 +1037,7 @@ func (g *c27Gen) op(kinds c27Kinds, inFunc bool) c27Op {
 func (g *c27Gen) track(o *c27Op, kinds c27Kinds) {
 	set := func(k byte) { kinds[o.Name] = k }
 	switch o.K {
+	case "IA": // restored afterwards: nothing changes
 	case "A", "D":
 		if o.K == "D" && o.Naked {
 			if o.Vt == "A" {
